@@ -3,6 +3,7 @@ Lemmas/IPSetL11.lean — histories: abstract (set-theoretic) meaning of every op
 step relation, and the every-reachable-state theorem (C06/C07).
 -/
 import NetaddrVerif.Lemmas.IPSetL10b
+import NetaddrVerif.Lemmas.IPSetDiff5
 namespace NV.IPSet
 open NV NV.Blk
 
@@ -67,8 +68,8 @@ theorem getSet_setSet (sets : List St) (i j : Nat) (s : St) :
     · simp only [e, if_false]
       rw [List.getElem?_set_ne (fun h => e h.symm)]
 
-/-- which operations the history theorem covers, and their argument conditions
-    (`-` and `^` are not covered: see Props/C06 and C07) -/
+/-- the argument conditions of the operations of a history: every argument well-formed
+    (all four binary operators `|`, `&`, `-`, `^` are covered without condition) -/
 def Op.OK : Op → Prop
   | .newNet _ n => n.WF
   | .newRng _ r => ArgOK (.rng r)
@@ -78,7 +79,6 @@ def Op.OK : Op → Prop
   | .updList _ xs => ∀ x ∈ xs, ArgOK x
   | .pop _ (some b) => Good b
   | .rem _ x => ArgOK x
-  | .bin _ _ _ o => o = .or ∨ o = .and
   | _ => True
 
 /-- the concrete sets are canonical and denote the abstract sets -/
@@ -156,16 +156,26 @@ theorem step_rel (sets : List St) (σ : Abs) (op : Op) (h : Rel sets σ) (hop : 
     have := copy_spec (getSet sets i) (h i).1
     exact rel_upd h j _ _ this.1 (fun u a => by rw [denS_of_mem _ _ this.2]; exact (h i).2 u a)
   | bin k i j o =>
-    rcases hop with e | e
-    · subst e
+    cases o with
+    | or =>
       have := union_spec (getSet sets i) (getSet sets j) (h i).1 (h j).1
       exact rel_upd h k _ _ this.1 (fun u a => by
         show denS (union _ _) u a ↔ _
         rw [this.2 u a, (h i).2 u a, (h j).2 u a]; rfl)
-    · subst e
+    | and =>
       have := intersection_spec (getSet sets i) (getSet sets j) (h i).1 (h j).1
       exact rel_upd h k _ _ this.1 (fun u a => by
         show denS (intersection _ _) u a ↔ _
+        rw [this.2 u a, (h i).2 u a, (h j).2 u a]; rfl)
+    | sub =>
+      have := difference_spec (getSet sets i) (getSet sets j) (h i).1 (h j).1
+      exact rel_upd h k _ _ this.1 (fun u a => by
+        show denS (difference _ _) u a ↔ _
+        rw [this.2 u a, (h i).2 u a, (h j).2 u a]; rfl)
+    | xor =>
+      have := symmetricDifference_spec (getSet sets i) (getSet sets j) (h i).1 (h j).1
+      exact rel_upd h k _ _ this.1 (fun u a => by
+        show denS (symmetricDifference _ _) u a ↔ _
         rw [this.2 u a, (h i).2 u a, (h j).2 u a]; rfl)
 
 /-- abstract run of a history (alongside the concrete one, whose `pop` outcomes it reads) -/
